@@ -754,7 +754,7 @@ pub fn call_keydumper<O: KeyDumper + ?Sized>(rv: &mut Recv<O>, mi: usize, a: &mu
 
 use crate::dynobj::{IntoDyn, KBasic, KGrpA};
 
-pub const CHILDREN: [Meth; 8] = [m("c_owned"), m("c_owned_mut"), m("c_ref"), m("c_mut"), m("c_group"), m("c_group_ref"), m("c_group_mut"), m("c_count")];
+pub const CHILDREN: [Meth; 9] = [m("c_owned"), m("c_owned_mut"), m("c_ref"), m("c_mut"), m("c_group"), m("c_group_ref"), m("c_group_mut"), m("c_count"), m("c_nest")];
 
 fn sub<'a>(a: &A<'a>) -> A<'a> {
     A::new(if a.a.len() > 2 { &a.a[2..] } else { &[] })
@@ -799,6 +799,13 @@ where
             let o = need_mut!(rv);
             let c = o.c_group_mut();
             call_basic(&mut Recv::Mut(c), a.raw(1).rem_euclid(BASIC.len() as i64) as usize, &mut sub(a))
+        }
+        8 => {
+            // an owned grandchild derived from a borrowed child: its context is cloned from the
+            // borrowed wrapper's; used and dropped inside the step
+            let c = rv.r().c_nest();
+            let g = c.sp_kid(a.u(1));
+            Ret::U(g.r_get())
         }
         7 => Ret::U(rv.r().c_count()),
         _ => Ret::NoSuchMethod,
@@ -866,6 +873,13 @@ pub fn call_children_opaque<O: Children + ?Sized>(rv: &mut Recv<O>, mi: usize, a
         }
         5 => Ret::U(rv.r().c_group_ref().r_touch(a.u(1))),
         6 => Ret::U(need_mut!(rv).c_group_mut().b_add(a.u(1))),
+        8 => {
+            // an owned grandchild derived from a borrowed child: its context is cloned from the
+            // borrowed wrapper's; used and dropped inside the step
+            let c = rv.r().c_nest();
+            let g = c.sp_kid(a.u(1));
+            Ret::U(g.r_get())
+        }
         7 => Ret::U(rv.r().c_count()),
         _ => Ret::NoSuchMethod,
     }
